@@ -45,6 +45,66 @@ fn hang_seen() {
     HANG_SEEN.store(true, Ordering::SeqCst);
 }
 
+/// An in-memory stream whose server end can be told to fail its next read or write with a chosen `io::ErrorKind`.
+#[derive(Default)]
+struct Fault {
+    read_err: Mutex<Option<std::io::ErrorKind>>,
+    write_err: Mutex<Option<std::io::ErrorKind>>,
+    read_waker: Mutex<Option<std::task::Waker>>,
+}
+impl Fault {
+    fn fail_reads(&self, k: std::io::ErrorKind) {
+        *self.read_err.lock().unwrap() = Some(k);
+        if let Some(w) = self.read_waker.lock().unwrap().take() {
+            w.wake();
+        }
+    }
+    fn fail_writes(&self, k: std::io::ErrorKind) {
+        *self.write_err.lock().unwrap() = Some(k);
+    }
+}
+struct FaultyIo {
+    inner: tokio::io::DuplexStream,
+    fault: Arc<Fault>,
+}
+impl AsyncRead for FaultyIo {
+    fn poll_read(mut self: std::pin::Pin<&mut Self>, cx: &mut std::task::Context<'_>, buf: &mut tokio::io::ReadBuf<'_>) -> std::task::Poll<std::io::Result<()>> {
+        if let Some(k) = *self.fault.read_err.lock().unwrap() {
+            return std::task::Poll::Ready(Err(std::io::Error::new(k, "scripted read failure")));
+        }
+        *self.fault.read_waker.lock().unwrap() = Some(cx.waker().clone());
+        std::pin::Pin::new(&mut self.inner).poll_read(cx, buf)
+    }
+}
+impl AsyncWrite for FaultyIo {
+    fn poll_write(mut self: std::pin::Pin<&mut Self>, cx: &mut std::task::Context<'_>, buf: &[u8]) -> std::task::Poll<std::io::Result<usize>> {
+        if let Some(k) = *self.fault.write_err.lock().unwrap() {
+            return std::task::Poll::Ready(Err(std::io::Error::new(k, "scripted write failure")));
+        }
+        std::pin::Pin::new(&mut self.inner).poll_write(cx, buf)
+    }
+    fn poll_flush(mut self: std::pin::Pin<&mut Self>, cx: &mut std::task::Context<'_>) -> std::task::Poll<std::io::Result<()>> {
+        std::pin::Pin::new(&mut self.inner).poll_flush(cx)
+    }
+    fn poll_shutdown(mut self: std::pin::Pin<&mut Self>, cx: &mut std::task::Context<'_>) -> std::task::Poll<std::io::Result<()>> {
+        std::pin::Pin::new(&mut self.inner).poll_shutdown(cx)
+    }
+}
+
+/// The error kinds a transport can hand to the reader / writer (`rerr<k>` / `werr<k>` causes).
+const IO_KINDS: [std::io::ErrorKind; 10] = [
+    std::io::ErrorKind::ConnectionReset,
+    std::io::ErrorKind::ConnectionAborted,
+    std::io::ErrorKind::BrokenPipe,
+    std::io::ErrorKind::UnexpectedEof,
+    std::io::ErrorKind::TimedOut,
+    std::io::ErrorKind::InvalidData,
+    std::io::ErrorKind::PermissionDenied,
+    std::io::ErrorKind::NotConnected,
+    std::io::ErrorKind::OutOfMemory,
+    std::io::ErrorKind::Other,
+];
+
 trait Io: AsyncRead + AsyncWrite + Unpin + Send {}
 impl<T: AsyncRead + AsyncWrite + Unpin + Send> Io for T {}
 type BoxIo = Box<dyn Io>;
@@ -201,6 +261,8 @@ fn valid(entry: Entry, mode: char, phase: &str, cause: &str) -> bool {
         "late" => false,
         _ if phase == "late" => false,
         "close" | "drop" | "proto" | "protog" | "malformed" | "malformeds" | "malformedl" | "toobig" => true,
+        // a scripted error kind from the transport: adopted streams only, while the reader is reading
+        "rerr" | "werr" => entry == Entry::Adopt && matches!(phase, "idle" | "parked" | "parkedfut"),
         "hpanic" => matches!(phase, "idle" | "inline" | "parked" | "parkedfut" | "backlog"),
         "cpanic" => phase == "connecting",
         "cancel" => match entry {
@@ -400,6 +462,7 @@ fn make_router(sh: &Arc<Shared>) -> Router {
     let (s1, s2, s3, s4) = (sh.clone(), sh.clone(), sh.clone(), sh.clone());
     Router::new()
         .with_json("/echo", |v: Value| Ok(v))
+        .with_json("/len", |v: Value| Ok(json!(v.as_str().map(|s| s.len()))))
         .with_json("/panic", |v: Value| -> Result<Value, (ErrorCode, String)> { scripted_panic(v.get("k").and_then(|k| k.as_str()).and_then(|k| k.chars().next()).unwrap_or(' '), "inline handler") })
         .with_json_ctx("/gate", move |ctx: &CallContext, _v: Value| {
             let Some(rec) = rec_of_ctx(&s1, ctx) else { return Ok(json!("unknown-peer")) };
@@ -706,6 +769,7 @@ impl Group {
         *self.sh.establishing.lock().unwrap() = if scen.hsfail() { None } else { Some(rec.clone()) };
         let mut conn_task: Option<ConnTask> = None;
         let mut echo_sent = false;
+        let fault = Arc::new(Fault::default());
         let mut raw_tcp: Option<tokio::net::TcpStream> = None;
         let mut ws: Option<Ws> = None;
         match &self.ctl {
@@ -720,6 +784,7 @@ impl Group {
                     256 * 1024
                 };
                 let (client_io, server_io) = tokio::io::duplex(buf);
+                let server_io = FaultyIo { inner: server_io, fault: fault.clone() };
                 let shared = shared.clone();
                 let token = ShutdownToken::new();
                 if scen.phase == "late" {
@@ -869,6 +934,19 @@ impl Group {
                     return Err("parkfut-handler-not-entered".into());
                 }
             }
+            "parkedsat" => {
+                // off-reader limit 1: the parked handler holds the only permit; a second off-reader request takes the
+                // saturation path (refused with an error response, C16) on this same connection
+                ws.send(request(2, "/park", &json!(null), false)).await.map_err(|e| format!("send-park {e}"))?;
+                if !wait_evt(ev_rx, |e| matches!(e, Evt::Parked)).await {
+                    return Err("park-handler-not-entered".into());
+                }
+                ws.send(request(5, "/park", &json!(null), false)).await.map_err(|e| format!("send-park2 {e}"))?;
+                match read_frames(&mut ws, &mut res.wire, |c| c == "r5").await {
+                    Ok(true) => {}
+                    other => return Err(format!("saturated-request-not-answered {:?}", other)),
+                }
+            }
             "parked" => {
                 ws.send(request(2, "/park", &json!(null), false)).await.map_err(|e| format!("send-park {e}"))?;
                 if !wait_evt(ev_rx, |e| matches!(e, Evt::Parked)).await {
@@ -929,7 +1007,26 @@ impl Group {
                 })
                 .await;
             }
+            "rerr" => {
+                fault.fail_reads(IO_KINDS[scen.nreq % IO_KINDS.len()]);
+            }
+            "werr" => {
+                // the writer's next write fails: it exits and the channel closes; the reader notices when it has a
+                // response to send
+                fault.fail_writes(IO_KINDS[scen.nreq % IO_KINDS.len()]);
+                let _ = tokio::time::timeout(wd(), ws.as_mut().unwrap().send(request(3, "/echo", &json!(3), false))).await;
+                let _ = tokio::time::timeout(wd(), ws.as_mut().unwrap().send(request(4, "/echo", &json!(4), false))).await;
+                // (should the second response be queued before the writer has hit its error, the Close ends it)
+                let _ = tokio::time::timeout(wd(), ws.as_mut().unwrap().send(WsMsg::Close(None))).await;
+            }
             "toobig" => {
+                // (r) the positive sibling first: a frame just below the limit is served
+                let near = "y".repeat((1 << 20) - 64 * 1024);
+                let _ = tokio::time::timeout(wd(), ws.as_mut().unwrap().send(request(4, "/len", &json!(near), false))).await;
+                match read_frames(ws.as_mut().unwrap(), &mut res.wire, |c| c == "r4").await {
+                    Ok(true) => {}
+                    _ => res.notes.push("near-limit-frame-not-answered".into()),
+                }
                 // larger than the server's inbound message limit (1 MiB in `lim` groups): tungstenite refuses it
                 let _ = tokio::time::timeout(wd(), ws.as_mut().unwrap().send(WsMsg::Binary(vec![0u8; 3 << 20]))).await;
             }
@@ -990,7 +1087,7 @@ impl Group {
         if !ended && !wait_evt(ev_rx, |e| matches!(e, Evt::Ended)).await {
             res.problems.push(("lifecycle.disconnect.missing".into(), format!("last disconnect callback not invoked within {:?} after the connection ended ({} / {})", WD, scen.phase, scen.cause)));
         }
-        if phase == "parked" || phase == "parkedfut" {
+        if phase == "parked" || phase == "parkedfut" || phase == "parkedsat" {
             rec.park_gate.open();
             // the handler's verdict is the observable (its ParkDone event may already have been consumed: a handler
             // waiting on `cancelled()` finishes before the disconnect callbacks do)
@@ -1383,7 +1480,7 @@ async fn run_group(cfg: GroupCfg, scens: Vec<Scen>, big_rt: &tokio::runtime::Run
 // generation
 // ---------------------------------------------------------------------------------------------
 const PHASES: [&str; 7] = ["idle", "inline", "parked", "parkedfut", "queued", "backlog", "connecting"];
-const CAUSES: [&str; 11] = ["close", "drop", "proto", "protog", "malformed", "malformeds", "malformedl", "hpanic", "cpanic", "cancel", "abort"];
+const CAUSES: [&str; 13] = ["close", "drop", "proto", "protog", "malformed", "malformeds", "malformedl", "hpanic", "cpanic", "cancel", "abort", "rerr", "werr"];
 
 fn fill_scen(rng: &mut Rng, cfg: &GroupCfg, idx: String, phase: &str, cause: &str) -> Scen {
     let nuser = cfg.nconn + cfg.nctx;
@@ -1394,6 +1491,7 @@ fn fill_scen(rng: &mut Rng, cfg: &GroupCfg, idx: String, phase: &str, cause: &st
     let cause = if cfg.lim && cause == "protog" && matches!(phase, "idle" | "parked" | "parkedfut") && rng.chance(1, 2) { "toobig" } else { cause };
     // (garbage is only partly read by the server: through a tiny pipe the rest of it could never be written)
     let cause = if cfg.frag > 0 && cause == "protog" { "proto" } else { cause };
+    let phase = if phase == "parked" && cfg.off == '1' { "parkedsat" } else { phase };
     let payload = if cause == "cpanic" || cause == "hpanic" { *rng.pick(&[' ', 's', 'n']) } else { ' ' };
     // never more notifies than the channel holds: `try_send` must not depend on the writer's progress
     let mut budget = cfg.cap.min(6);
@@ -1408,6 +1506,7 @@ fn fill_scen(rng: &mut Rng, cfg: &GroupCfg, idx: String, phase: &str, cause: &st
     let nreq = match phase {
         "queued" => 12,
         "backlog" => 8,
+        _ if cause == "rerr" || cause == "werr" => rng.below(IO_KINDS.len() as u64) as usize, // which io::ErrorKind
         _ => 0,
     };
     Scen { idx, phase: phase.into(), cause: cause.into(), notif, at, nreq, payload }
@@ -2009,6 +2108,21 @@ fn plan_rx(rng: &mut Rng, g: usize) -> RxPlan {
     let mut next_c = 0usize;
     let mut pool: Vec<String> = vec!["u0".into(), "u1".into(), "u2".into(), "x0".into(), "x1".into()];
     let n = rng.range(10, 20);
+    if rng.chance(1, 3) {
+        // rich state: one peer holds 12-16 aliases registered in a shuffled order before anything is taken over
+        // or evicted
+        let c = next_c;
+        next_c += 1;
+        steps.push(RxStep::Open { c, keys: vec![format!("s{c}")] });
+        alive.push(c);
+        pool.push(format!("s{c}"));
+        let mut many: Vec<String> = (0..rng.range(12, 16)).map(|k| format!("m{:02}", (k * 7) % 23)).collect();
+        rng.shuffle(&mut many);
+        for k in many {
+            pool.push(k.clone());
+            steps.push(RxStep::Alias { c, off: rng.chance(1, 2), key: k });
+        }
+    }
     for _ in 0..n {
         let roll = rng.below(100);
         if (roll < 35 && alive.len() < 5) || alive.is_empty() {
@@ -2109,7 +2223,7 @@ async fn run_hs(plan: HsPlan, server_rt: &tokio::runtime::Runtime, out: &Mutex<O
             c3.disconnect.fetch_add(1, Ordering::SeqCst);
         })
         .on_error(move |e| match e {
-            repe::ConnectionError::Handshake(_) => {
+            repe::ConnectionError::Handshake(e_) => { if std::env::var("LC_TRACE").is_ok() { eprintln!("HSERR {e_}"); }
                 c4.hs_err.fetch_add(1, Ordering::SeqCst);
             }
             repe::ConnectionError::Connection(_) => {
@@ -2127,27 +2241,28 @@ async fn run_hs(plan: HsPlan, server_rt: &tokio::runtime::Runtime, out: &Mutex<O
     });
     let mut results: Vec<(String, String, Vec<(String, String)>)> = Vec::new();
     for (idx, req, end) in &plan.reqs {
-        let line = format!("hs {} {} {} {}", idx, if plan.cfg.is_empty() { "-" } else { &plan.cfg }, req, end);
+        let mut line = format!("hs {} {} {} {}", idx, if plan.cfg.is_empty() { "-" } else { &plan.cfg }, req, end);
         let mut fails: Vec<(String, String)> = Vec::new();
         let (c0, d0, h0, e0) = (cnt.connect.load(Ordering::SeqCst), cnt.disconnect.load(Ordering::SeqCst), cnt.hs_err.load(Ordering::SeqCst), cnt.conn_err.load(Ordering::SeqCst));
         cnt.ctx.lock().unwrap().clear();
         let mut accepted = false;
         let mut note = None;
         match tokio::time::timeout(wd(), tokio::net::TcpStream::connect(addr)).await {
-            Ok(Ok(mut s)) if end.starts_with("frag") => {
+            Ok(Ok(mut s)) if end.starts_with("frag") || end.starts_with("stall") => {
                 // the upgrade request arrives in pieces (every byte on its own / three pieces with a stall in between)
                 use tokio::io::AsyncReadExt;
                 let _ = s.set_nodelay(true);
                 let text = format!("GET {}?who=7 HTTP/1.1\r\nHost: x\r\nConnection: Upgrade\r\nUpgrade: websocket\r\nSec-WebSocket-Version: 13\r\nSec-WebSocket-Key: dGhlIHNhbXBsZSBub25jZQ==\r\n\r\n", req);
                 let bytes = text.as_bytes();
+                let stall_ms: u64 = end.strip_prefix("stall").and_then(|x| x.parse().ok()).unwrap_or(20);
                 let cuts: Vec<usize> = if end == "frag1" { (1..=bytes.len()).collect() } else { vec![5, bytes.len() - 3, bytes.len()] };
                 let mut from = 0;
                 for (k, c) in cuts.iter().enumerate() {
                     let _ = s.write_all(&bytes[from..*c]).await;
                     let _ = s.flush().await;
                     from = *c;
-                    if end == "frag3" || k % 24 == 0 {
-                        tokio::time::sleep(Duration::from_millis(if end == "frag3" { 20 } else { 1 })).await;
+                    if end != "frag1" || k % 24 == 0 {
+                        tokio::time::sleep(Duration::from_millis(if end != "frag1" { stall_ms } else { 1 })).await;
                     }
                 }
                 let mut head = Vec::new();
@@ -2163,6 +2278,26 @@ async fn run_hs(plan: HsPlan, server_rt: &tokio::runtime::Runtime, out: &Mutex<O
                 if accepted {
                     if !hs_until(&cnt.connect, c0 + 1).await {
                         note = Some("hs-connect-callback-watchdog");
+                    }
+                    if end.starts_with("stall") {
+                        // a request frame that stalls in the middle of its REPE header for longer than any plausible
+                        // internal timer: the connection must simply wait (no disconnect callback meanwhile)
+                        let payload = RawFrame::request(1, false, 1, b"/echo", 2, b"1").to_vec();
+                        let mut frame = vec![0x82u8, 0x80 | payload.len() as u8, 0, 0, 0, 0];
+                        frame.extend_from_slice(&payload);
+                        let _ = s.write_all(&frame[..26]).await;
+                        let _ = s.flush().await;
+                        tokio::time::sleep(Duration::from_millis(stall_ms)).await;
+                        let early = cnt.disconnect.load(Ordering::SeqCst) - d0;
+                        let _ = s.write_all(&frame[26..]).await;
+                        let _ = s.flush().await;
+                        let mut got = [0u8; 2];
+                        let answered = tokio::time::timeout(wd(), s.read_exact(&mut got)).await.map(|r| r.is_ok()).unwrap_or(false);
+                        if early > 0 || cnt.disconnect.load(Ordering::SeqCst) > d0 {
+                            fails.push(("lifecycle.stall.spurious_disconnect".into(), format!("a frame stalled for {stall_ms} ms in mid-header: the disconnect callbacks ran although the peer was still connected")));
+                        } else if !answered {
+                            note = Some("stalled-request-not-answered");
+                        }
                     }
                     drop(s);
                     if !hs_until(&cnt.disconnect, d0 + 1).await {
@@ -2207,7 +2342,14 @@ async fn run_hs(plan: HsPlan, server_rt: &tokio::runtime::Runtime, out: &Mutex<O
         tokio::time::sleep(Duration::from_millis(15)).await;
         let (dc, dd, dh, de) = (cnt.connect.load(Ordering::SeqCst) - c0, cnt.disconnect.load(Ordering::SeqCst) - d0, cnt.hs_err.load(Ordering::SeqCst) - h0, cnt.conn_err.load(Ordering::SeqCst) - e0);
         let ctx = cnt.ctx.lock().unwrap().join("|");
-        if accepted != hs_spec(&plan.cfg, req) {
+        // whether the dependency's handshake parser accepts a request delivered in pieces is recorded, not asserted
+        // (seen once under CPU load: a byte-wise upgrade for the right path answered with a handshake error; no hook
+        // fired, which is all the property asks of a failed handshake)
+        let pieces = end.starts_with("frag") || end.starts_with("stall");
+        if pieces && accepted != hs_spec(&plan.cfg, req) {
+            note = Some("hs-fragmented-upgrade-outcome-differs-from-path-rule");
+        }
+        if !pieces && accepted != hs_spec(&plan.cfg, req) {
             fails.push(("lifecycle.handshake.path_check".into(), format!("configured path {:?}, request path {:?}: accepted={} but the request path {} the normalised configured path", plan.cfg, req, accepted, if accepted { "differs from" } else { "equals" })));
         }
         if !accepted && (dc > 0 || dd > 0) {
@@ -2218,6 +2360,9 @@ async fn run_hs(plan: HsPlan, server_rt: &tokio::runtime::Runtime, out: &Mutex<O
         }
         if dh + de > 1 {
             fails.push(("lifecycle.on_error.duplicate".into(), format!("{dh} handshake + {de} connection errors reported for one connection")));
+        }
+        if pieces {
+            line.push_str(if accepted { " a" } else { " r" });
         }
         let obs = format!("{} {} hooks={}/{} ctx={} err=h{}c{}", idx, if accepted { "accept" } else { "reject" }, dc, dd, if ctx.is_empty() { "-".to_string() } else { ctx }, dh, de);
         let _ = note.map(|n| out.lock().unwrap().count(&format!("note.{n}")));
@@ -2233,6 +2378,12 @@ async fn run_hs(plan: HsPlan, server_rt: &tokio::runtime::Runtime, out: &Mutex<O
         o.count(&format!("hs.{}", obs.split(' ').nth(1).unwrap_or("x")));
         o.case(&line, &obs, true);
     }
+}
+
+/// stalled handshakes and frames, each on its own server, all at once
+fn plan_stalls(thorough: bool) -> Vec<HsPlan> {
+    let ms: &[u64] = if thorough { &[300, 600, 1100, 2500, 5500, 11000] } else { &[300, 600, 1100] };
+    ms.iter().enumerate().map(|(i, m)| HsPlan { cfg: "/repe".into(), reqs: vec![(format!("st{i}"), "/repe".into(), format!("stall{m}"))] }).collect()
 }
 
 fn plan_hs() -> Vec<HsPlan> {
@@ -2541,33 +2692,93 @@ enum AnyPlan {
     Life(Plan),
     Rx(RxPlan),
     Hs(HsPlan),
+    Stalls(Vec<HsPlan>),
     Burst(BurstPlan),
+}
+
+/// Public entry points of src/websocket_server.rs the harness drives …
+const DRIVEN: &[&str] = &[
+    "new", "with_outbound_capacity", "with_limits", "with_offreader_limit", "with_peer_registry", "on_peer_connect",
+    "on_peer_connect_with_handshake", "on_peer_disconnect", "on_error", "serve_listener", "serve_listener_with_shutdown",
+    "serve_listener_with_graceful_drain", "into_shared", "accept", "accept_with_limits", "accept_with_handshake",
+    "accept_with_handshake_and_limits", "limits", "adopt_upgraded", "adopt_upgraded_partially_read", "serve_connection",
+    "serve_connection_with_handshake", "serve_connection_with_cancel", "serve_connection_with_cancel_and_handshake", "cancel",
+    "from_http_request", "path", "query",
+];
+/// … and the ones it knowingly does not, with the reason.
+const NOT_DRIVEN: &[(&str, &str)] = &[
+    ("serve", "binds the address, then serve_listener (needs a fixed port)"),
+    ("serve_with_shutdown", "binds the address, then serve_listener_with_shutdown"),
+    ("serve_with_graceful_drain", "binds the address, then serve_listener_with_graceful_drain"),
+    ("listen", "TcpListener::bind"),
+    ("is_cancelled", "ShutdownToken getter"),
+    ("cancelled", "ShutdownToken future (the connection's own token is what handlers wait on)"),
+    ("header", "HandshakeContext getter"),
+    ("headers", "HandshakeContext getter"),
+    ("error_code", "ConnectionError -> ErrorCode table (C16/C17)"),
+    ("derive_accept_key", "SHA-1/base64 of the upgrade key: adopted upgrades are performed by the embedder"),
+    ("proxy_connection", "no peer, no hooks, no token"),
+    ("proxy_connection_with_limits", "no peer, no hooks, no token"),
+    ("is_websocket_upgrade", "co-hosting sniff before any handshake"),
+];
+
+/// Every `pub fn` of the anchored source file of the tree under test is either driven or knowingly not driven;
+/// anything else (a new twin) is reported in the evidence and on stderr.
+fn entry_point_audit(out: &mut Out) {
+    let repo = std::env::var("VERIF_REPO").unwrap_or_else(|_| "/repo".into());
+    let text = std::fs::read_to_string(std::path::Path::new(&repo).join("src/websocket_server.rs")).unwrap_or_default();
+    let text = text.split("#[cfg(test)]").next().unwrap_or("").to_string();
+    let mut unknown: Vec<String> = Vec::new();
+    let mut seen = 0;
+    for line in text.lines() {
+        let t = line.trim_start();
+        for pre in ["pub async fn ", "pub fn "] {
+            if let Some(rest) = t.strip_prefix(pre) {
+                let name: String = rest.chars().take_while(|c| c.is_alphanumeric() || *c == '_').collect();
+                seen += 1;
+                if !DRIVEN.contains(&name.as_str()) && !NOT_DRIVEN.iter().any(|(n, _)| *n == name) && !unknown.contains(&name) {
+                    unknown.push(name);
+                }
+            }
+        }
+    }
+    for u in &unknown {
+        eprintln!("fam_lifecycle: public entry point `{u}` of src/websocket_server.rs is neither driven nor listed as not driven");
+        out.count(&format!("NOT_DRIVEN.{u}"));
+    }
+    out.extra.insert("entry_points_seen".into(), json!(seen));
+    out.extra.insert("not_driven".into(), json!(unknown));
+    out.extra.insert("not_driven_known".into(), json!(NOT_DRIVEN.iter().map(|(n, w)| format!("{n}: {w}")).collect::<Vec<_>>()));
 }
 
 fn main() {
     let args = Args::parse();
+    // the release-profile twin of the thorough tier runs the quick-sized plan (its point is cfg(debug_assertions) off)
+    let deep = args.thorough() && !args.has("--release-profile");
     quiet_panics();
     let mut out = Out::new(&args.out);
     out.rule = "one case = one connection driven through (entry × phase × exit cause) on a real server, 1..32 connections per server instance concurrently; every valid combination of the matrix is generated once per round (quick: 4 rounds, thorough: 40) with random hook counts (1-3 plain, 0-2 handshake-aware connect callbacks, 1-3 disconnect callbacks), registry on/off, notifies per connect callback, the callback the connection is held in / that panics; non-trivial = the connection was accepted or its handshake failed as scripted and its callbacks' trace was compared (all cases). Registry scripts (rx lines; quick 60, thorough 600 scripts of 10-25 steps on serve_listener / serve_connection / adopt_upgraded servers with with_peer_registry): up to 5 live connections whose connect hook registers 0-3 aliases (a shared user key first, so later connections take over non-newest aliases), alias calls from inline and off-reader handlers, alias calls kept in flight (key conversion blocks until the peer is removed) while the connection ends by Close / drop / malformed frame; after every step get_by for every key ever used and get / aliases_for / key_for for every connection ever opened are compared with C18's model and with the harness's own reading of the history".into();
-    THOROUGH.store(args.thorough(), Ordering::SeqCst);
+    entry_point_audit(&mut out);
+    THOROUGH.store(deep, Ordering::SeqCst);
     let mut rng = Rng::new(args.seed);
     let plans: Vec<AnyPlan> = match args.replay_ops() {
         Some(ops) => parse_replay(&ops),
         None => {
             // registry scripts first (cheap), then the lifecycle matrix
-            let nrx = if args.thorough() { 600 } else { 60 };
+            let nrx = if deep { 600 } else { 60 };
             let mut v: Vec<AnyPlan> = plan_hs().into_iter().map(AnyPlan::Hs).collect();
-            v.extend(plan_burst(&mut rng, args.thorough()).into_iter().map(AnyPlan::Burst));
-            v.extend(plan_hsrun(args.thorough()).into_iter().map(AnyPlan::HsRun));
+            v.push(AnyPlan::Stalls(plan_stalls(deep)));
+            v.extend(plan_burst(&mut rng, deep).into_iter().map(AnyPlan::Burst));
+            v.extend(plan_hsrun(deep).into_iter().map(AnyPlan::HsRun));
             v.extend((0..nrx).map(|i| AnyPlan::Rx(plan_rx(&mut rng, 100_000 + i))));
-            v.extend(plan(&mut rng, args.thorough()).into_iter().map(AnyPlan::Life));
+            v.extend(plan(&mut rng, deep).into_iter().map(AnyPlan::Life));
             v
         }
     };
     let server_rt = tokio::runtime::Builder::new_multi_thread().worker_threads(48).max_blocking_threads(256).enable_all().thread_name("srv").build().unwrap();
     let small_rt = tokio::runtime::Builder::new_multi_thread().worker_threads(4).max_blocking_threads(1).enable_all().thread_name("srv-small").build().unwrap();
     let client_rt = tokio::runtime::Builder::new_multi_thread().worker_threads(4).enable_all().thread_name("cli").build().unwrap();
-    let settle = Duration::from_millis(if args.thorough() { 60 } else { 30 });
+    let settle = Duration::from_millis(if deep { 60 } else { 30 });
     let out = Mutex::new(out);
     let stop = AtomicBool::new(false);
     client_rt.block_on(async {
@@ -2590,6 +2801,9 @@ fn main() {
                 }
                 AnyPlan::Rx(p) => run_rx(p, &server_rt, &out).await,
                 AnyPlan::Hs(p) => run_hs(p, &server_rt, &out).await,
+                AnyPlan::Stalls(ps) => {
+                    futures_util::future::join_all(ps.into_iter().map(|p| run_hs(p, &server_rt, &out))).await;
+                }
                 AnyPlan::Burst(p) => run_burst(p, &server_rt, &out).await,
                 AnyPlan::HsRun(p) => run_hsrun(p, &server_rt, &out).await,
             }
